@@ -423,13 +423,21 @@ fn run(case: &Case, out: &mut Out) {
             }
             "remove" => {
                 let c = a[0].n();
-                let ids = st.map.remove_backend(&cluster_of(c), &addr_of(a[1].n()));
+                // c id addr: the backend (id, address), as RemoveBackend names it
+                let (id, ad) = (format!("b{}", a[1].n()), addr_of(a[2].n()));
+                let siblings: Vec<String> = st.list(c).iter().filter(|b| b.borrow().address == ad && b.borrow().backend_id != id).map(|b| b.borrow().backend_id.clone()).collect();
+                let ids = st.map.remove_backend(&cluster_of(c), &id, &ad);
                 let mut o = vec![tn(ids.len())];
                 for i in &ids {
                     o.push(tn(idx_of(i)));
                 }
-                if st.list(c).iter().any(|b| b.borrow().address == addr_of(a[1].n())) {
-                    out.viol("remove-left-address", "remove_backend left a backend at the removed address");
+                if st.list(c).iter().any(|b| b.borrow().address == ad && b.borrow().backend_id == id) {
+                    out.viol("remove-left-backend", "remove_backend left the backend it was asked to remove");
+                }
+                for sib in &siblings {
+                    if !st.list(c).iter().any(|b| b.borrow().address == ad && &b.borrow().backend_id == sib) {
+                        out.viol("remove-took-sibling", &format!("remove_backend({id}) also dropped {sib}, another backend of the cluster on the same address"));
+                    }
                 }
                 o.extend(st.view(c));
                 out.obs(&o);
